@@ -191,15 +191,6 @@ func main() {
 			cfg, plan = specials[i-n].Cfg, specials[i-n].Plan
 		}
 		res := prog.Run(e.Rand, cfg, plan)
-		if id == os.Getenv("VERIF_DEBUG_ID") {
-			for _, d := range res.Desc {
-				if len(d) > 200 {
-					d = d[:200]
-				}
-				fmt.Fprintln(os.Stderr, d)
-			}
-			fmt.Fprintln(os.Stderr, res.RefusedText, res.ErrIdx, res.ErrText)
-		}
 		if res.ErrIdx != -1 || res.File == nil {
 			e.Count(false, "", "rejected-program")
 			continue
